@@ -6,7 +6,7 @@
 (* modules and names the first clause that disagrees.  Verdicts are total: *)
 (* a disagreement is printed as <<"RJ", id, clause>> and the trace goes on.*)
 (***************************************************************************)
-EXTENDS Bytes, Base58, Wire, Oracle, Json, IOUtils, TLC
+EXTENDS Bytes, Base58, Wire, Bech32, Oracle, Json, IOUtils, TLC
 
 Trace == JsonDeserialize(IOEnv.TRACE_FILE)
 
@@ -52,7 +52,7 @@ HasEmptyElem(cmds) == \E i \in 1..Len(cmds) : ~IsOp(cmds[i]) /\ Len(cmds[i].d) =
 
 V_ScriptSer(e) ==            \* e.inp = [cmds, raw]
   IF HasEmptyElem(e.inp.cmds) THEN "ok"         \* property: elements of 1..520 bytes
-  ELSE LET r == IF e.inp.raw THEN RawSerialize(e.inp.cmds) ELSE Serialize(e.inp.cmds)
+  ELSE LET r == IF e.inp.raw THEN RawSerializeScript(e.inp.cmds) ELSE SerializeScript(e.inp.cmds)
        IN IF ~r.ok THEN (IF Raised(e) THEN "ok" ELSE "ser-accepted-oversize-element")
           ELSE IF Raised(e) THEN "ser-refused-legal-element"
           ELSE IF e.res.v # r.bytes THEN "ser-bytes"
@@ -85,6 +85,40 @@ V_VarintRead(e) ==           \* e.inp = tape; e.res.v = [val (LE trimmed), used]
      ELSE "ok"
 
 ---------------------------------------------------------------------------
+\* C11 segwit addresses (BIP173 / BIP350)
+V_SegwitEnc(e) ==            \* e.inp = [hrp, ver, prog]; no address = None or exception
+  LET r == IF e.inp.ver < 0 \/ e.inp.ver > 31 THEN [ok |-> FALSE, str |-> <<>>]
+           ELSE AddrEncode(e.inp.hrp, e.inp.ver, e.inp.prog)
+  IN IF ~r.ok THEN (IF Raised(e) THEN "ok" ELSE "enc-address-for-illegal-input")
+     ELSE IF Raised(e) THEN "enc-no-address-for-legal-input"
+     ELSE IF e.res.v # r.str THEN "enc-string"
+     ELSE LET d == AddrDecode(e.inp.hrp, e.res.v)     \* independent direction: decode what was emitted
+          IN IF ~d.ok \/ d.ver # e.inp.ver \/ d.prog # e.inp.prog THEN "enc-does-not-decode-back"
+             ELSE IF Decode(e.res.v).const # ConstFor(e.inp.ver) THEN "enc-wrong-constant"
+             ELSE "ok"
+
+Hamming(s, t) == Cardinality({i \in 1..Len(s) : s[i] # t[i]})
+
+V_SegwitDec(e) ==            \* e.inp = [hrp, addr] (+ orig: the valid address it was mutated from)
+  LET r == AddrDecode(e.inp.hrp, e.inp.addr)
+      hasOrig == "orig" \in DOMAIN e.inp
+      \* substitution errors the property promises to detect
+      mustReject ==
+        /\ hasOrig /\ Len(e.inp.orig) = Len(e.inp.addr) /\ e.inp.orig # e.inp.addr
+        /\ LET w == Hamming(ToLower(e.inp.orig), ToLower(e.inp.addr))
+               sep == LastIndexOf(e.inp.orig, 49)
+               v0a == e.inp.orig[sep + 1] = 113            \* 'q' = witness version 0
+               v0b == Lower(e.inp.addr[sep + 1]) = 113
+           IN w >= 1 /\ (w <= 3 \/ (w = 4 /\ v0a = v0b))
+  IN IF mustReject /\ r.ok THEN "spec-accepts-substitution-error"
+     ELSE IF mustReject /\ ~Raised(e) THEN "dec-accepted-substitution-error"
+     ELSE IF ~r.ok THEN (IF Raised(e) THEN "ok" ELSE "dec-accepted-" \o r.why)
+     ELSE IF Raised(e) THEN "dec-rejected-valid"
+     ELSE IF e.res.v.ver # r.ver THEN "dec-version"
+     ELSE IF e.res.v.prog # r.prog THEN "dec-program"
+     ELSE "ok"
+
+---------------------------------------------------------------------------
 Verdict(e) ==
   CASE e.act = "B58Enc" -> V_B58Enc(e)
     [] e.act = "B58Dec" -> V_B58Dec(e)
@@ -94,6 +128,8 @@ Verdict(e) ==
     [] e.act = "ScriptParse" -> V_ScriptParse(e)
     [] e.act = "VarintEnc" -> V_VarintEnc(e)
     [] e.act = "VarintRead" -> V_VarintRead(e)
+    [] e.act = "SegwitEnc" -> V_SegwitEnc(e)
+    [] e.act = "SegwitDec" -> V_SegwitDec(e)
     [] OTHER -> "unknown-act"
 
 TraceInit == l = 1
